@@ -279,6 +279,200 @@ def time_malformed(ctx):
 
 
 # ---------------------------------------------------------------------------
+# the LITERAL clause: backup_count changing at restarts, view judged with the
+# backup_count in force at the time of the view
+# ---------------------------------------------------------------------------
+
+KNOWN_STALE = "C17-stale-backups-after-backup-count-shrank"
+WITNESS = ["rinit 5 3", "w 6", "w 6", "w 6", "close", "rinit 5 0", "w 6", "close", "rinit 5 3", "w 6", "view", "ls"]
+
+
+def size_literal(ctx):
+    """histories on an empty directory; backup_count changes at restarts; plain `view`
+    (k = max(backup_count,1) of the handler that is open) after every restart and write burst"""
+    rng = ctx.rng
+    quick = ctx.quick
+    cases = [list(WITNESS)]
+    # bounded-exhaustive: every sequence of 3 (quick) / 4 backup counts over 0..3, every burst
+    # length in {1,2,4} per session, limit 5 and 6-byte lines (each write rotates)
+    nsess = 3 if quick else 4
+    bursts = [1, 2, 4] if quick else [1, 3]
+    for bcs in itertools.product([0, 1, 2, 3], repeat=nsess):
+        for bs in itertools.product(bursts, repeat=nsess):
+            ops = []
+            for bc, b in zip(bcs, bs):
+                if ops:
+                    ops.append("close")
+                ops.append("rinit 5 %d" % bc)
+                ops.append("view")
+                ops += ["w 6"] * b
+                ops.append("view")
+            ops.append("ls")
+            cases.append(ops)
+    # random: mixed line lengths, rotations not on every write, counts 0..5
+    for _ in range(400 if quick else 6000):
+        mb = rng.choice([1, 5, 9, 16, 33, 64, rng.randrange(1, 200)])
+        ops = []
+        total = 0
+        for _s in range(rng.randrange(2, 7)):
+            if ops:
+                ops.append("close")
+            if rng.random() < 0.3:
+                mb = rng.choice([1, 5, 9, 16, 33, 64, rng.randrange(1, 200)])
+            ops.append("rinit %d %d" % (mb, rng.choice([0, 1, 2, 3, 4, 5])))
+            ops.append("view")
+            for _w in range(rng.randrange(0, 14)):
+                ops.append("w %d" % rand_len(rng, mb))
+                total += 1
+                if rng.random() < 0.3:
+                    ops.append("view")
+            ops.append("view")
+        ops.append("ls")
+        cases.append(ops)
+    return cases
+
+
+def shrink_then_grow(effs, j):
+    """is a gap after path.j attributable to the recorded finding?  There must be a session b
+    that kept fewer backups than an earlier one (the count shrank) and fewer than a later one
+    (it grew again), and the gap must be above that smaller count: path.(eff_b+1).. were not
+    shifted while b was running and are stale (later rotations may have moved them further up)."""
+    valleys = [e for i, e in enumerate(effs)
+               if any(x > e for x in effs[:i]) and any(x > e for x in effs[i + 1:])]
+    return bool(valleys) and j > min(valleys)
+
+
+def literal_oracle(ops, out):
+    """None | ("known", msg) | ("violation", msg): the literal clause judged on the
+    implementation's own output.  Every plain `view` must list, oldest file first, whole
+    lines with consecutive ids ending with the newest line written.  A forward gap between
+    two files is attributed to the recorded finding only when the history contains a restart
+    with a smaller backup_count followed by one with a larger count and the older file's index
+    is above that smaller count (shrink_then_grow); anything else (gap elsewhere, duplicate, reordering, missing newest line, split
+    line) is a violation."""
+    effs = []
+    created = 0
+    last_written = None
+    zero_limit = False
+    known = None
+    for op, line in zip(ops, out):
+        t = op.split()
+        if "CORRUPT" in line:
+            return ("violation", "a file is not a sequence of whole lines: " + line[:200])
+        if t[0] == "pre":
+            return None                                   # not a literal-family history
+        if t[0] == "rinit" and line.startswith("ok"):
+            effs.append(max(int(t[2]), 1))
+            zero_limit = zero_limit or int(t[1]) == 0
+        elif t[0] == "w" and line not in ("closed", "bad-op"):
+            last_written = created
+            created += 1
+        elif op == "view" and line.startswith("k=") and effs:
+            k = int(line[2:].split()[0])
+            if k != effs[-1]:
+                return ("violation", "view not taken with the backup_count in force: " + line[:100])
+            body = line.split(" : ", 1)[1] if " : " in line else ""
+            segs = [[int(x.split(":")[0]) for x in sg.split() if ":" in x] for sg in body.split("/")]
+            if len(segs) != k + 1:
+                return ("violation", "view has %d files, expected %d: %s" % (len(segs), k + 1, line[:200]))
+            prev = None           # (last id, file index) of the previous non-empty file
+            for pos, ids in enumerate(segs):
+                idx = k - pos     # file index: k .. 1, 0 = live
+                for a, b in zip(ids, ids[1:]):
+                    if b != a + 1:
+                        return ("violation", "lines inside path.%d not consecutive: %s" % (idx, line[:200]))
+                if not ids:
+                    continue
+                if prev is not None and ids[0] != prev[0] + 1:
+                    if ids[0] <= prev[0]:
+                        return ("violation", "duplicate / reordered lines across files: " + line[:200])
+                    if shrink_then_grow(effs, prev[1]):
+                        known = known or ("stale path.%d after backup_count shrank and grew (%s): %s"
+                                          % (prev[1], effs, line[:200]))
+                    else:
+                        return ("violation", "gap after path.%d not explained by stale backups (%s): %s"
+                                % (prev[1], effs, line[:200]))
+                prev = (ids[-1], idx)
+            if last_written is not None and not zero_limit and (prev is None or prev[0] != last_written):
+                return ("violation", "newest line %d missing from view: %s" % (last_written, line[:200]))
+    return ("known", known) if known else None
+
+
+def judge_literal(ops, out):
+    """the general monitor plus the literal clause; the recorded finding itself is not a failure here"""
+    m = judge(ops, out)
+    if m:
+        return m
+    v = literal_oracle(ops, out)
+    return v[1] if v and v[0] == "violation" else None
+
+
+def run_literal(ctx, hcmd, dcmd, env):
+    cases = size_literal(ctx)
+    impl = vlib.run_cases(hcmd, cases, timeout=1500, env=env)
+    mres = vlib.run_cases(dcmd, cases, timeout=1500)
+    model, spec = vlib.split_model_spec(mres)
+    differ = {d[0] for d in vlib.compare_streams(impl, model)}
+    stats = {"histories": len(cases), "histories_with_shrink_then_grow": 0, "views_judged": 0,
+             "literal_clause_holds": 0, "known_finding_hits": 0, "other_failures": 0}
+    known_cases, bad_cases = [], []
+    for i, c in enumerate(cases):
+        effs = [max(int(o.split()[2]), 1) for o in c if o.startswith("rinit")]
+        if any(shrink_then_grow(effs[:n], j) for n in range(1, len(effs) + 1) for j in range(1, 6)):
+            stats["histories_with_shrink_then_grow"] += 1
+        stats["views_judged"] += sum(1 for o in c if o == "view")
+        if impl[i]["crash"] or i in differ or vlib.first_spec_diff(impl[i]["out"], spec[i]) \
+                or judge(c, impl[i]["out"]):
+            bad_cases.append(c)
+            continue
+        v = literal_oracle(c, impl[i]["out"])
+        if v is None:
+            stats["literal_clause_holds"] += 1
+        elif v[0] == "known":
+            known_cases.append(c)
+        else:
+            bad_cases.append(c)
+    stats["known_finding_hits"] = len(known_cases)
+    stats["other_failures"] = len(bad_cases)
+    seen = set()
+    for i, c in enumerate(cases):
+        if tuple(c) not in seen:
+            seen.add(tuple(c))
+            if nontrivial(c, impl[i]["out"]):
+                ctx.cov["distinct_nontrivial"] += 1
+    ctx.cov["evaluations"] += len(cases)
+    ctx.cov["ties"]["literal"] = stats
+    ctx.cov["literal_clause"] = stats
+    if bad_cases:
+        # anything that is not exactly the recorded finding: ordinary violation (shrunk, replay)
+        vlib.seq_correspondence(ctx, hcmd, dcmd, bad_cases[:50], nontrivial=nontrivial, keep_prefix=0,
+                                env=env, judge=judge_literal, label="tieB-literal-failures", timeout=1500,
+                                corpus_dir=os.path.join(vlib.BUILD, "C17", "no-corpus"),
+                                signature_of=lambda ops, a: "ops: " + " ; ".join(ops))
+    if known_cases:
+        def is_known(ops):
+            a = vlib.run_one(hcmd, ops, env=env)
+            b = vlib.run_one(dcmd, ops)
+            mo, sp = vlib.split_model_spec([b])
+            if a["crash"] or vlib.compare_streams([a], mo) or vlib.first_spec_diff(a["out"], sp[0]):
+                return False
+            v = literal_oracle(ops, a["out"])
+            return bool(v and v[0] == "known")
+        c = min(known_cases, key=len)
+        ops = vlib.ddmin(c, is_known, keep_prefix=0)
+        a = vlib.run_one(hcmd, ops, env=env)
+        b = vlib.run_one(dcmd, ops)
+        v = literal_oracle(ops, a["out"])
+        ctx.violation({"kind": "literal-clause-fails-on-implementation", "tie": "literal",
+                       "ops": ops, "implementation": a["out"], "model_and_spec": b["out"],
+                       "oracle": v[1] if v else None,
+                       "lean_witness": "MgProof.C17.size_view_literal_fails",
+                       "histories_hitting_it": len(known_cases),
+                       "how_to_replay": "bin/check C17 --replay <this file>"},
+                      found_input=True, signature=KNOWN_STALE)
+
+
+# ---------------------------------------------------------------------------
 
 def gen_cases(ctx):
     quick = ctx.quick
@@ -366,7 +560,10 @@ def main(ctx):
         "gap tuples from boundary bases (leap day, year end, 2100-02-28, month end in UTC+5:30, 2^31) for every "
         "unit x rotate_mod x (UTC|local, zone) + seeded random monotone timelines biased to unit boundaries with "
         "restarts/reconfiguration and clock-stamped messages + non-monotone malformed stream; distinct = distinct "
-        "op lists; non-trivial = the final directory has at least two non-empty files")
+        "op lists; non-trivial = the final directory has at least two non-empty files; literal family: histories on "
+        "an empty directory with backup_count changing at restarts (every sequence of 3/4 counts over 0..3 x burst "
+        "lengths, + random), plain view judged with the count in force by an oracle on the implementation's output "
+        "(coverage.literal_clause: histories / known-finding hits / other failures)")
     ctx.lean_obligations("drv_c17", PROOFS, GREP, leanchecker=["MgProof.C17.Props"])
     if not getattr(ctx, "driver_ok", False):
         return
@@ -381,6 +578,7 @@ def main(ctx):
         vlib.seq_correspondence(ctx, hcmd, dcmd, cases, nontrivial=nontrivial, keep_prefix=0,
                                 env={"VH_SCRATCH": scratch}, judge=judge, timeout=1500,
                                 signature_of=lambda ops, a: "ops: " + " ; ".join(ops))
+        run_literal(ctx, hcmd, dcmd, {"VH_SCRATCH": scratch})
     finally:
         shutil.rmtree(scratch, ignore_errors=True)
         try:
@@ -397,7 +595,26 @@ def replay(ctx, path):
     vlib.lake_build(["drv_c17"])
     scratch = os.path.join(SCRATCH, "replay%d" % os.getpid())
     try:
-        return vlib.replay_file(ctx, path, hcmd, dcmd, env={"VH_SCRATCH": scratch}, judge=judge)
+        import json
+        r = json.load(open(path))
+        env = {"VH_SCRATCH": scratch}
+        if r.get("signature") == KNOWN_STALE and r.get("ops"):
+            a = vlib.run_one(hcmd, r["ops"], env=env)
+            b = vlib.run_one(dcmd, r["ops"])
+            mo, sp = vlib.split_model_spec([b])
+            print("ops:", r["ops"])
+            print("implementation:", a["out"], "crash:", a["crash"])
+            print("model:", mo[0]["out"])
+            v = literal_oracle(r["ops"], a["out"])
+            if not a["crash"] and not vlib.compare_streams([a], mo) and v and v[0] == "known":
+                k = ctx.matches_known(KNOWN_STALE)
+                if k is not None:
+                    print("KNOWN-FINDING: property=C17 %s" % k.get("what", KNOWN_STALE))
+                    return 0
+                print("VIOLATION property=C17 replay=%s" % path)
+                return 1
+            # not (only) the recorded finding any more: fall through to the general replay
+        return vlib.replay_file(ctx, path, hcmd, dcmd, env=env, judge=judge_literal)
     finally:
         shutil.rmtree(scratch, ignore_errors=True)
         try:
